@@ -129,7 +129,17 @@ func run(c *fw.Ctx) {
 	mine := func() bool { idx++; return c.Mine(idx) }
 	nontriv := int64(0)
 
-	// (0) sequences of conversions (non-initial states)
+	// (0) a slice of the enumeration on the fresh process (first use), then the sibling conversions
+	// are called (interfere) and everything below runs in that non-initial process state: the exact
+	// oracle holds in both
+	for i := int64(1); i < 300; i++ {
+		checkInt(c, big.NewInt(i))
+		checkInt(c, big.NewInt(-i))
+		checkStr(c, fmt.Sprintf("0.%018d", i))
+		checkDec(c, big.NewInt(i), i%19)
+	}
+	interfere()
+	// sequences of conversions (non-initial states)
 	seqPart(c, mine)
 
 	// (1) all small integers
